@@ -201,12 +201,14 @@ InitState(P, PL, G) ==
    ended |-> {}, garbage |-> {}, dropsFree |-> FALSE,
    res |-> NoRes, cands |-> {}, hparked |-> FALSE, polldone |-> FALSE,
    hx |-> FALSE, jn |-> "todo", pp |-> "", released |-> {},
-   inpoll |-> FALSE, polled |-> FALSE, sinceWake |-> FALSE,
-   panicked |-> FALSE, pb |-> -1, zombie |-> FALSE]
+   inpoll |-> FALSE, polled |-> FALSE, sinceWake |-> FALSE, woken |-> FALSE, spur |-> FALSE,
+   panicked |-> FALSE, pb |-> -1, zombie |-> FALSE, fresh |-> FALSE]
 
 StartStep(s, st) ==
   LET s1 == [s EXCEPT !.k = st, !.ph = "step", !.capq = Caps(s.prog, st), !.consq = Cons(s.prog, st),
                       !.ended = {}, !.jn = "todo",
+                      \* tasks spawned by this root poll start running only after it returns
+                      !.fresh = IsTasks(s.prog) /\ Cardinality(Active(s.prog, st)) > 1,
                       !.arrived = [b \in BrSet(s.prog) |-> FALSE]]
   IN  [s1 EXCEPT !.pc = [b \in BrSet(s.prog) |->
                            IF b \in Active(s.prog, st) THEN StartPc(s1, b) ELSE [i |-> 0, ph |-> "done", v |-> NoV]]]
@@ -257,7 +259,7 @@ Barrier(s) ==
 RECURSIVE Settle(_)
 Settle(s) ==
   LET P == s.prog IN
-  IF s.ph = "step" /\ s.capq = <<>> /\ s.consq = <<>> /\ EndedNow(s) \ s.ended # {}
+  IF s.ph = "step" /\ s.capq = <<>> /\ s.consq = <<>> /\ ~s.fresh /\ EndedNow(s) \ s.ended # {}
   THEN Settle([s EXCEPT !.ended = s.ended \cup EndedNow(s)])
   ELSE IF StepComplete(s) /\ (IsAsync(P) => s.inpoll)
   THEN LET s1 == Barrier(s) IN
@@ -278,7 +280,7 @@ Running(s) == s.ph = "step" /\ s.capq = <<>> /\ s.consq = <<>> /\ s.pp = ""
 MayRun(s, b) ==
   LET P == s.prog IN
   /\ b \in Active(P, s.k) /\ b \notin s.ended /\ b # s.pb
-  /\ \/ Running(s) /\ ~s.panicked /\ (IsAsync(P) /\ ~IsTasks(P) => s.inpoll)
+  /\ \/ Running(s) /\ ~s.panicked /\ ~s.fresh /\ (IsAsync(P) /\ ~IsTasks(P) => s.inpoll)
         /\ (IsTasks(P) /\ Cardinality(Active(P, s.k)) < 2 => s.inpoll)
      \/ s.zombie /\ s.capq = <<>> /\ s.consq = <<>>
 
@@ -440,9 +442,10 @@ ApplyRaw(s, e) ==
     [] e.ev = "dropfut" -> [s EXCEPT !.ph = "closed"]
     [] e.ev = "poll" ->
          IF s.ph = "idle" THEN [StartStep(s, 0) EXCEPT !.inpoll = TRUE, !.polled = TRUE]
-         ELSE [s EXCEPT !.inpoll = TRUE, !.sinceWake = FALSE]
+         ELSE [s EXCEPT !.inpoll = TRUE, !.sinceWake = FALSE, !.woken = FALSE,
+                        !.spur = ~(s.woken \/ s.sinceWake)]
     [] e.ev = "pollend" ->
-         IF e.id = 0 THEN [s EXCEPT !.inpoll = FALSE]
+         IF e.id = 0 THEN [s EXCEPT !.inpoll = FALSE, !.fresh = FALSE]
          ELSE IF s.ph = "fin" THEN [s EXCEPT !.inpoll = FALSE, !.polldone = TRUE]
          ELSE [s EXCEPT !.inpoll = FALSE, !.polldone = TRUE, !.ph = "afail", !.cands = FailedEnded(s),
                         !.dropsFree = TRUE, !.zombie = IsTasks(P)]
@@ -480,17 +483,20 @@ Apply(s, e) ==
       s2 == IF e.ev = "panic" /\ e.b # -1 THEN [s1 EXCEPT !.pp = ""] ELSE s1
       s3 == Settle(s2)
   IN  \* tasks: a branch task that completes outside a root poll must wake the root
-      IF IsTasks(s.prog) /\ ~s.inpoll /\ s3.ended # s.ended /\ s3.k = s.k
+      IF IsTasks(s.prog) /\ ~s3.inpoll /\ s3.ended # s.ended /\ s3.k = s.k
       THEN [s3 EXCEPT !.sinceWake = TRUE] ELSE s3
 
 \* environment: release gates (threads: one at a time; futures: a batch)
-ApplyRelease(s, ids) == Settle(Unpark([s EXCEPT !.released = s.released \cup ids, !.hparked = FALSE]))
-
 \* Is some branch (or the handler future) parked at one of these gates?
 ParkedAt(s, ids) ==
   \/ \E b \in Active(s.prog, s.k) \ s.ended :
         s.pc[b].ph \in {"w", "x"} /\ s.arrived[b] /\ IdAt(s, b) \in ids
   \/ s.ph = "hawait" /\ s.hparked /\ s.prog.hid \in ids
+
+ApplyRelease(s, ids) ==
+  Settle(Unpark([s EXCEPT !.released = s.released \cup ids,
+                          !.hparked = IF s.prog.hid \in ids THEN FALSE ELSE s.hparked,
+                          !.woken = s.woken \/ ParkedAt(s, ids)]))
 
 Done(s) == s.ph \in {"closed", "ended"}
 =============================================================================
